@@ -36,7 +36,7 @@ def main():
     ap.add_argument("--all", action="store_true")
     ap.add_argument("--only", nargs="*", default=None)
     a = ap.parse_args()
-    tmp = "/tmp/seed-%s" % a.prop
+    tmp = "%s%s" % (os.environ.get("SEED_ROOT", "/tmp/seed-"), a.prop)
     src = os.path.join(tmp, "_benign", a.n)
     name = "%s-r%s" % (a.prop, a.n)
     patch = os.path.join(src, "patch.diff")
